@@ -15,14 +15,14 @@ def z1_lemmas(tier, sizes=None):
     ls = []
     for T in ((8, 10) if tier == "quick" else (8, 10, 12)):
         ls.append(Lemma("Z1.RoundTrip.strings.T%d" % T, "verifHarness_Z1_RoundTrip", FZ, splits=[{"T": T - 4, "cfg": 1}],
-                        split_depth="auto", intr=ChunkIntrinsics, scale=SCALE,
+                        split_depth="auto", intr=ChunkIntrinsics, scale=SCALE, replay_patches=("memhash",),
                         desc="as Z1.RoundTrip on flat arrays of up to %d strings of length 0..2 (equal, prefix-related, hash-colliding by "
                              "the solver's choice) and NOP runs" % ((T - 4) // 2),
                         bound="tape = %d words: up to %d strings of <= 2 bytes; string table scaled to 4 buckets" % (T, (T - 4) // 2),
                         expect_reach=["Z1.roundtrip"]))
     for T in sizes:
         ls.append(Lemma("Z1.RoundTrip.T%d" % T, "verifHarness_Z1_RoundTrip", FZ, splits=[{"T": T - 4, "cfg": 0}],
-                        split_depth=("auto" if T >= 6 else 0), intr=ChunkIntrinsics, scale=SCALE,
+                        split_depth=("auto" if T >= 6 else 0), intr=ChunkIntrinsics, scale=SCALE, replay_patches=("memhash",),
                         desc="Deserialize(Serialize(tape)) for every well-formed tape of %d words (NOP runs, strings in Strings.B or in "
                              "Message, lengths 0/1): the result obeys the tape format (strict NOP runs) and every traversal API reads "
                              "the same abstract document incl. number tags and float flags; Serializer/destination either fresh or "
